@@ -6,6 +6,12 @@ sys.path.insert(0, os.path.join(VERIF, "bin"))
 from registry import PROPS, HARNESSES, NOT_APPLICABLE, HOOK_COMMITS
 
 ALL = ["C%02d" % i for i in range(1, 21)]
+# properties whose harness exists but has not yet been validated end-to-end on the unchanged tree
+pend = os.path.join(VERIF, "bin", "reg", "PENDING")
+PENDING = set(open(pend).read().split()) if os.path.exists(pend) else set()
+PROPS = {k: v for k, v in PROPS.items() if k not in PENDING}
+for k in PENDING:
+    NOT_APPLICABLE.setdefault(k, "check being built in this session; not yet validated on the unchanged tree")
 checks = []
 for pid in sorted(PROPS):
     s = PROPS[pid]
